@@ -1,0 +1,161 @@
+//go:build verif
+
+package proxy
+
+// Verification hooks for property C24 (early plugin messages: config-phase queue and
+// pre-join queue). Add-only, no behaviour change: builds the real connectedPlayer,
+// serverConnection, clientConfigSessionHandler, clientPlaySessionHandler and
+// backendPlaySessionHandler with their own constructors over caller-supplied
+// (recording) connections and exposes the unexported entry points a monitor needs.
+
+import (
+	"errors"
+	"net"
+
+	"go.minekube.com/gate/pkg/edition/java/netmc"
+	"go.minekube.com/gate/pkg/edition/java/profile"
+	"go.minekube.com/gate/pkg/edition/java/proto/packet"
+	"go.minekube.com/gate/pkg/edition/java/proto/state"
+	"go.minekube.com/gate/pkg/gate/proto"
+)
+
+// VerifC24Fixture is a player with server connections and session handlers.
+type VerifC24Fixture struct {
+	px     *Proxy
+	player *connectedPlayer
+	conns  []*serverConnection
+}
+
+// VerifC24New builds a connectedPlayer over client the way authSessionHandler does
+// (same sessionHandlerDeps as Proxy.HandleConn).
+func VerifC24New(px *Proxy, client netmc.MinecraftConn, prof *profile.GameProfile) *VerifC24Fixture {
+	deps := &sessionHandlerDeps{
+		proxy:          px,
+		registrar:      px,
+		configProvider: px,
+		eventMgr:       px.event,
+		authenticator:  px.authenticator,
+		loginsQuota:    px.loginsQuota,
+	}
+	pl := newConnectedPlayer(client, prof, client.LocalAddr(), packet.LoginHandshakeIntent, false, nil, deps)
+	return &VerifC24Fixture{px: px, player: pl}
+}
+
+// Player returns the public Player value.
+func (f *VerifC24Fixture) Player() Player { return f.player }
+
+// AddServerConn creates a serverConnection (newServerConnection) to a fresh registered
+// server whose established connection is backend, with the initial backend phase of the
+// connection's type, and returns its index.
+func (f *VerifC24Fixture) AddServerConn(name string, backend netmc.MinecraftConn) int {
+	server := newRegisteredServer(NewServerInfo(name, &net.TCPAddr{IP: net.IPv4(10, 24, 0, 1), Port: 25565 + len(f.conns)}))
+	sc := newServerConnection(server, nil, f.player)
+	sc.mu.Lock()
+	sc.connection = backend
+	sc.connPhase = backend.Type().InitialBackendPhase()
+	sc.mu.Unlock()
+	f.conns = append(f.conns, sc)
+	return len(f.conns) - 1
+}
+
+// SetInFlight makes connection i the player's in-flight connection (i < 0: none).
+func (f *VerifC24Fixture) SetInFlight(i int) {
+	if i < 0 {
+		f.player.setInFlightConnection(nil)
+		return
+	}
+	f.player.setInFlightConnection(f.conns[i])
+}
+
+// SetConnected makes connection i the player's connected server, as the transition
+// handler does after JoinGame; completeJoin also runs serverConnection.completeJoin.
+func (f *VerifC24Fixture) SetConnected(i int, completeJoin bool) {
+	sc := f.conns[i]
+	if completeJoin {
+		sc.completeJoin()
+	}
+	f.player.setConnectedServer(sc)
+}
+
+// InstallConfigHandler installs a new clientConfigSessionHandler as the client
+// connection's active (CONFIG) session handler.
+func (f *VerifC24Fixture) InstallConfigHandler() {
+	f.player.MinecraftConn.SetActiveSessionHandler(state.Config, newClientConfigSessionHandler(f.player))
+}
+
+// InstallPlayHandler installs a new clientPlaySessionHandler as the client connection's
+// active (PLAY) session handler.
+func (f *VerifC24Fixture) InstallPlayHandler() {
+	f.player.MinecraftConn.SetActiveSessionHandler(state.Play, newClientPlaySessionHandler(f.player))
+}
+
+// InstallBackendPlayHandler installs a new backendPlaySessionHandler on connection i's
+// backend connection (requires the client play handler to be active).
+func (f *VerifC24Fixture) InstallBackendPlayHandler(i int) error {
+	h, err := newBackendPlaySessionHandler(f.conns[i])
+	if err != nil {
+		return err
+	}
+	f.conns[i].conn().SetActiveSessionHandler(state.Play, h)
+	return nil
+}
+
+// HandleClientPacket dispatches a decoded serverbound packet to the client connection's
+// active session handler, as the client's read loop does.
+func (f *VerifC24Fixture) HandleClientPacket(p proto.Packet) {
+	f.player.MinecraftConn.ActiveSessionHandler().HandlePacket(&proto.PacketContext{
+		Direction: proto.ServerBound,
+		Protocol:  f.player.Protocol(),
+		Packet:    p,
+	})
+}
+
+// ConfigFlushTo calls clientConfigSessionHandler.flushQueuedPluginMessagesTo(conn i), as
+// backendLoginSessionHandler does on login success.
+func (f *VerifC24Fixture) ConfigFlushTo(i int) error {
+	h, ok := f.player.MinecraftConn.ActiveSessionHandler().(*clientConfigSessionHandler)
+	if !ok {
+		return errors.New("active client session handler is not the config handler")
+	}
+	return h.flushQueuedPluginMessagesTo(f.conns[i])
+}
+
+// PlayFlush calls clientPlaySessionHandler.FlushQueuedPluginMessages.
+func (f *VerifC24Fixture) PlayFlush() error {
+	h, ok := f.player.MinecraftConn.ActiveSessionHandler().(*clientPlaySessionHandler)
+	if !ok {
+		return errors.New("active client session handler is not the play handler")
+	}
+	h.FlushQueuedPluginMessages()
+	return nil
+}
+
+// BackendJoinGame runs clientPlaySessionHandler.handleBackendJoinGame for connection i
+// and then records it as the connected server, the two steps
+// backendTransitionSessionHandler.handleJoinGame performs on the backend's read loop.
+func (f *VerifC24Fixture) BackendJoinGame(i int, jg *packet.JoinGame) error {
+	h, ok := f.player.MinecraftConn.ActiveSessionHandler().(*clientPlaySessionHandler)
+	if !ok {
+		return errors.New("active client session handler is not the play handler")
+	}
+	pc := &proto.PacketContext{Direction: proto.ClientBound, Protocol: f.player.Protocol(), Packet: jg}
+	if err := h.handleBackendJoinGame(pc, jg, f.conns[i]); err != nil {
+		return err
+	}
+	f.player.setConnectedServer(f.conns[i])
+	return nil
+}
+
+// ClientPhaseComplete reports connectedPlayer.phase().ConsideredComplete().
+func (f *VerifC24Fixture) ClientPhaseComplete() bool { return f.player.phase().ConsideredComplete() }
+
+// QueuedPreJoin returns the length of the pre-join queue (diagnostics only).
+func (f *VerifC24Fixture) QueuedPreJoin() int {
+	h, ok := f.player.MinecraftConn.ActiveSessionHandler().(*clientPlaySessionHandler)
+	if !ok {
+		return -1
+	}
+	h.mu.RLock()
+	defer h.mu.RUnlock()
+	return h.mu.loginPluginMessages.Len()
+}
